@@ -88,3 +88,22 @@ Theorem C18_hostile_contracts_only_add_junk : forall P a id b s s',
   exists g, find_key (a, id) (buckets s') = Some (mkB (owner b) g (bfee b)) /\ only_junk_added P (funds b) g.
 Proof. exact hostile_contracts_only_add_junk. Qed.
 Print Assumptions C18_hostile_contracts_only_add_junk.
+
+(** Non-vacuity: two forged top-ups of usr1's bucket 7 by contract 60 (a CW20 hook, then an NFT
+    hook) form a hostile sequence; the bucket afterwards holds the coins it held, plus junk. *)
+Example C18_hostile_sequence_hyps_met :
+  exists s',
+    Inv (market w0) /\ hostile_seq (fun h => h = 60) 1 (market w0) s' /\
+    find_key (1, 7) (buckets (market w0)) = Some (mkB 1 (mkG [(3, 5)] [] []) None) /\
+    find_key (1, 7) (buckets s') = Some (mkB 1 (mkG [(3, 5)] [(60, 5)] [(60, 9)]) None).
+Proof.
+  eexists. split; [unfold w0; apply reach_Inv; exists 100000000000; reflexivity|]. split; [|split].
+  - eapply (hs_step _ _ _ _ _ (oracle_of w0) (env_of w0) 60 [] (ReceiveNft 1 9 (Some (AddToBucketCw721 7)))).
+    + eapply (hs_step _ _ _ _ _ (oracle_of w0) (env_of w0) 60 [] (Receive 1 5 (Some (AddToBucketCw20 7))));
+        [apply hs_refl | vm_compute; reflexivity | reflexivity | discriminate].
+    + vm_compute. reflexivity.
+    + reflexivity.
+    + discriminate.
+  - vm_compute. reflexivity.
+  - vm_compute. reflexivity.
+Qed.
